@@ -23,7 +23,13 @@ class _Scalar:
         self.value = value
 
     def __eq__(self, other):
-        return isinstance(other, _Scalar) and type(self.value) is type(other.value) and self.value == other.value
+        # 0.0 == -0.0, but the cached function may depend on the sign -> also compare the printed value
+        return (
+            isinstance(other, _Scalar)
+            and type(self.value) is type(other.value)
+            and self.value == other.value
+            and repr(self.value) == repr(other.value)
+        )
 
     def __hash__(self):
         return hash((type(self.value), self.value))
